@@ -40,8 +40,8 @@ PROP = "C14"
 VERIF = os.path.dirname(os.path.dirname(os.path.dirname(os.path.abspath(__file__))))
 
 TIERS = {
-    "quick": {"runs": 1000, "wall": 75, "chunk": 6},
-    "thorough": {"runs": 16000, "wall": 840, "chunk": 10},
+    "quick": {"runs": 1600, "wall": 75, "chunk": 6},
+    "thorough": {"runs": 36000, "wall": 840, "chunk": 10},
 }
 STEP_CAP = 3_000_000
 CHUNK_TIMEOUT = 900
